@@ -51,6 +51,7 @@ PeerInit(NP, N, spec) ==
     alive  |-> TRUE,
     issued |-> [q \in 0..N-1 |-> {}],     \* handshake nonces sent to q and not yet answered
     matched |-> [q \in 0..N-1 |-> 0],     \* replies of q that answered an issued nonce (round trips)
+    lastStall |-> FALSE,                \* the previous advance_frame call did not advance (inputs stay registered)
     gcount |-> 0,                       \* simulations of the glitch frame so far
     glitchCall |-> -1,                  \* number of the call in which the game's glitch fired
     ncalls |-> 0,                       \* advance_frame calls so far
@@ -315,6 +316,9 @@ TickP2P(gg, r) ==
                nNew |-> 0, nPred |-> 0, nDisc |-> 0, nCorr |-> 0]
       acc  == IF ok THEN FoldLeft(LAMBDA a, rq : ReqStep(g1, p, r, a, rq), acc0, r.q) ELSE acc0
       pe1  == acc.pe
+      expV == When(Has(r, "expect") /\ ~(\E i \in 1..Len(r.expect) : r.expect[i] = r.r)
+                     /\ ~(r.r = "ok" /\ pe0.lastStall),
+                   V("C16", r.n, "misuse-not-rejected-as-documented", <<p, r.a, r.r, r.expect>>))
       syncV == IF ~gg.isSync[p] THEN <<>>
                ELSE IF r.r = "E:MismatchedChecksum" THEN
                       When(gg.glitchFrame = -1,
@@ -353,6 +357,7 @@ TickP2P(gg, r) ==
       ver1 == IF ok /\ r.run THEN Max2(pe1.ver, hi) ELSE pe1.ver
       lo   == Min2(ver1 + 1, r.cur - gg.W - 2) - 1
       pe2  == [pe1 EXCEPT !.ncalls = @ + 1,
+                          !.lastStall = ok /\ acc.nNew = 0,
                           !.glitchCall = IF @ = -1 /\ Get(r, "glitched", FALSE) THEN pe0.ncalls + 1 ELSE @,
                           !.mismatch = @ \/ r.r = "E:MismatchedChecksum",
                           !.ver = ver1,
@@ -380,7 +385,7 @@ TickP2P(gg, r) ==
                               !.verified = @ + (ver1 - pe1.ver),
                               !.notSync = @ + (IF r.r = "E:NotSynchronized" THEN 1 ELSE 0)]
   IN AddViol([g3 EXCEPT !.stats = st1],
-             acc.vs \o endV \o finV \o confV \o syncV \o BufViol(gg, p, r))
+             acc.vs \o endV \o finV \o confV \o syncV \o expV \o BufViol(gg, p, r))
 
 ---------------------------------------------------------------------------
 \* a `tick` line of a spectator session (C06)
@@ -550,7 +555,11 @@ OtherPeerLine(gg, r) ==
                  ELSE IF r.h - gg.NP + 1 <= Len(gg.specs[p]) THEN gg.specs[p][r.h - gg.NP + 1] ELSE -1
             ELSE -1
       g2 == IF dq >= 0 THEN [g2a EXCEPT !.pr[p].evs[dq] = <<"disc", 0>>] ELSE g2a
-  IN AddViol(g2, When(isPanic, V("PANIC", r.n, r.r, <<p>>))
+      expV == When(Has(r, "expect") /\ ~(\E i \in 1..Len(r.expect) : r.expect[i] = r.r),
+                   V("C16", r.n, "misuse-not-rejected-as-documented", <<p, r.a, r.r, r.expect>>))
+              \o When(Has(r, "expect_add") /\ Has(r, "add") /\ r.add # r.expect_add,
+                      V("C16", r.n, "misuse-not-rejected-as-documented", <<p, r.a, r.add, r.expect_add>>))
+  IN AddViol(g2, expV \o When(isPanic, V("PANIC", r.n, r.r, <<p>>))
                  \o (IF Has(r, "buf") /\ ~gg.isSpec[p] THEN BufViol(gg, p, r) ELSE <<>>))
 
 \* C05: after the faults ended every live session has advanced
